@@ -167,4 +167,16 @@ theorem anc_fuel_complete {s : DStore} (hs : DWF s) (a v : Nat) :
 
 example : ancestors demo 3 = [0, 1, 2] := by decide
 
+
+/-- D13's clause on the model: what the children setter does depends on the MEMBERS of its argument only, not on the kind
+of iterable that carries them (the setter reads its argument once into a list; a tuple, a list and a one-shot iterator -
+which the protocol hands to the model as "an iterable that is not a list" - with the same members give the same outcome
+and the same store, for either setting of the checks and every hook fault) -/
+theorem children_arg_kind_irrelevant (asrt : Bool) (s : DStore) (v : Nat) (l : List Nat) (f : Fault) :
+    setChildren asrt s v (.tuple l) f = setChildren asrt s v (.list l) f := rfl
+
+/-- ... whereas the parents setter accepts lists only while the checks are on (documented type `List`) -/
+example : (setParents true (init 2 (fun _ => [])) 1 (.tuple [0]) .none).2 = .rej
+    ∧ (setParents true (init 2 (fun _ => [])) 1 (.list [0]) .none).2 = .ok := by decide
+
 end C10
